@@ -556,4 +556,41 @@ example : ∃ σ', SrcRun H0 (run H0 init demo) σ' ∧ σ'.nObj = (run H0 init 
   · simp [srcCalls, srcBits, hs, hb]
   · decide +kernel
 
+/-! ### `Cell(bits, refs)`: the constructor's heap-touching helper regenerated (partial source tie of `cellCtor`) -/
+
+open TonVerif.Generated.HeapSrc TonVerif.Proofs.SrcHeap in
+/-- PARTIAL.  Full statement (not proved from source): the whole of `Cell.__init__`, regenerated, equals the model step `cellCtor ub ur kind`.
+Proved: (model side) a successful `cellCtor` yields a cell whose `.bits` / `.refs` ARE the caller's two containers and changes no container;
+(source side) `Cell.get_data_bytes` - regenerated from boc/cell.py; the only method `__init__` calls that touches a bit array (once per
+hash level and once for `_data_bytes`) - run on that new cell PADS A COPY: every existing bit container (so the caller's array the cell
+points to), every list and every object record is left as it was; it only allocates one scratch array.  That `__init__` stores the two
+pointers it is given is checked on the source text by the translator (heapsrc.program). -/
+theorem c08_src_ctor_step_partial (H : Bytes → Bytes) (σ σ' : State) (ub ur c : Nat) (kind : Int)
+    (hstep : step H σ (.cellCtor ub ur kind) = (σ', .obj c)) :
+    ((σ'.obj c).bitsId = (σ.obj ub).bitsId ∧ (σ'.obj c).refsId = (σ.obj ur).refsId ∧ σ'.bitBuf = σ.bitBuf ∧ σ'.refBuf = σ.refBuf) ∧
+    ∃ σ'' v, Cell_get_data_bytes H σ' c = some (σ'', v) ∧ (∀ j, j < σ'.nBit → σ''.bitBuf j = σ'.bitBuf j) ∧
+      σ''.refBuf = σ'.refBuf ∧ σ''.obj = σ'.obj ∧ σ''.nObj = σ'.nObj := by
+  constructor
+  · simp only [step] at hstep
+    split at hstep
+    · cases hm : mkCellRec H σ (σ.obj ub).bitsId (σ.obj ur).refsId kind (σ.bitBuf (σ.obj ub).bitsId) (σ.refBuf (σ.obj ur).refsId) with
+      | none => simp [hm] at hstep
+      | some rec =>
+        simp only [hm, Prod.mk.injEq, Out.obj.injEq] at hstep
+        obtain ⟨rfl, rfl⟩ := hstep
+        simp only [mkCellRec, Option.map_eq_some_iff] at hm
+        obtain ⟨info, _, rfl⟩ := hm
+        simp [State.push]
+    · simp at hstep
+  · obtain ⟨σ'', v, h1, h2, h3, h4, h5, _⟩ := Cell_get_data_bytes_frame H σ' c
+    exact ⟨σ'', v, h1, h2, h3, h4, h5⟩
+
+open TonVerif.Generated.HeapSrc in
+/-- non-vacuity: in `demo`, cell 2 was built by `Cell(array 0, list 1)`; the regenerated `get_data_bytes` on it returns `10110` padded to
+`0xB4`, allocates one array, and the cell still points at the caller's array, which still holds `10110`. -/
+example :
+    (Cell_get_data_bytes H0 (run H0 init demo) 2).map (fun r => (r.2, r.1.nBit == (run H0 init demo).nBit + 1, r.1.bitsOf 2,
+        (r.1.obj 2).bitsId == (r.1.obj 0).bitsId)) = some ([0xB4], true, [true, false, true, true, false], true) := by
+  decide +kernel
+
 end TonVerif.Properties.C08
